@@ -2,7 +2,7 @@
    number.  gotNACK = Reverse of the packet map, lookup in the publisher's
    cache, Write again (Model/Forward.v, [nack1]). *)
 From Coq Require Import ZArith List Bool.
-From Galene Require Import Lib.Word Generated.Consts Model.PacketMap Model.Cache Model.Forward.
+From Galene Require Import Lib.Word Generated.Consts Model.PacketMap Model.PacketMapL1 Model.Cache Model.Forward.
 From Galene Require Import Proofs.PacketMapGhost Proofs.PacketMapView Proofs.PacketMapSpec.
 From Galene Require Import Proofs.CacheSound Proofs.ForwardProps.
 Import ListNotations.
@@ -91,3 +91,21 @@ Proof.
   specialize (H H1 H2). vm_compute in H. discriminate.
 Qed.
 Print Assumptions C03_marker_refuted.
+
+(* NACKs for numbers within 8192 of the newest outgoing number are answered
+   EXACTLY: after any history, Reverse on the (list-model) state names the one
+   source packet S whose unwrapped outgoing number is O (no aliasing modulo
+   2^16), which was not withheld and lies before next -- or nothing.  The
+   state of the L0 model is this state read through the ring (C01_ring_is_list). *)
+Theorem C03_window_exact : forall ops O, Forall wf_op16 ops ->
+  match spec_after SInit ops with
+  | SInit => True
+  | SRun Next D =>
+      let a := l1_after PacketMapL1.l1_init ops in
+      PacketMapL1.l_nil a = false ->
+      Next - zl D - 8192 <= O < Next - zl D ->
+      let '(ok, s, _) := PacketMapL1.l1_reverse a (w16 O) in
+      ok = true -> exists S, w16 S = s /\ ~ In S D /\ out D S = O /\ S < Next
+  end.
+Proof. exact reverse_window_reachable. Qed.
+Print Assumptions C03_window_exact.
